@@ -115,6 +115,20 @@ func rawFor(kind, uname, size string, seed int64) []RawKey {
 		if uname == "tupleq" {
 			n = 9
 		}
+		if uname == "tuplerange" {
+			// fields cut from 8 raw bytes; stored tuples share a 7-byte encoded path, bounds share only part of it
+			mk := func(a, b uint32, probe bool) RawKey {
+				k := []byte{byte(a >> 24), byte(a >> 16), byte(a >> 8), byte(a), byte(b >> 24), byte(b >> 16), byte(b >> 8), byte(b)}
+				return RawKey{B: k, Probe: probe}
+			}
+			var u []RawKey
+			for _, b := range []uint32{0x00010001, 0x00010002, 0x00010003, 0x00010004} {
+				u = append(u, mk(7, b, false))
+			}
+			u = append(u, mk(9, 5, false), mk(7, 0x00020000, false))
+			u = append(u, mk(7, 0, true), mk(7, 0xffffffff, true), mk(6, 1, true), mk(8, 0, true), mk(7, 0x00010000, true), mk(7, 0x0001ffff, true))
+			return u
+		}
 		if uname == "tuplelong" {
 			// tuples whose encodings share 16 bytes (far beyond the inline limit); probes differ from stored tuples only
 			// inside the non-inlined part of that path (byte 12) and have the same tail
